@@ -59,9 +59,9 @@ PROPS = {
     ),
     "C05": dict(
         extra_modules=["CstModel.Props.GenNode", "CstModel.Props.GenSlot", "CstModel.Proofs.Conc"],
-        tags=["C05", "C06"],
-        runs=runs([("conc:traverse", "release")],
-                  [("conc:traverse", "release"), ("conc:traverse", "debug"), ("conc:lifecycle", "release")]),
+        tags=["C05", "C06", "C02", "C03"],   # an element created at the wrong place by one route is a second element for the position for every other route
+        runs=runs([("conc:traverse", "release"), ("red", "release")],
+                  [("conc:traverse", "release"), ("conc:traverse", "debug"), ("conc:lifecycle", "release"), ("red", "release")]),
         rule="cases = executions of the real crate under the harness' deterministic scheduler (one thread runs at a time, from one hook point -- a slot/data "
              "lock acquisition or a read-modify-write of the tree counter -- to the next; a thread whose pending lock is held is not enabled): 8 fixed + 10 "
              "(thorough 60) random traversal programs of 2-3 threads x 1-3 navigation requests over 3 trees; per program ALL schedules with <= 1 (thorough 2) "
